@@ -867,7 +867,11 @@ func (s *sim) adversary(alphabet []int64) {
 		if verifrt.Intn("a", 8) == 7 {
 			v1 = 0 // the empty value
 		}
-		switch verifrt.Intn("a", 13) {
+		mv := verifrt.Intn("a", 16)
+		if mv >= 13 {
+			mv = 11 // the stale-certificate move is cheap when its precondition fails: try it often
+		}
+		switch mv {
 		case 0: // silence
 		case 1: // equivocating leader (current or future round, forged round-change justification)
 			for r := int64(1); r <= maxR+2; r++ {
@@ -1058,6 +1062,9 @@ func (s *sim) adversary(alphabet []int64) {
 					continue
 				}
 				stale := ks[verifrt.Intn("a", len(ks))]
+				if len(ks) > 1 && stale == ks[len(ks)-1] && verifrt.Intn("a", 2) == 0 {
+					stale = ks[len(ks)-2] // prefer a certificate older than the newest one
+				}
 				if stale.r >= r {
 					continue
 				}
